@@ -76,6 +76,71 @@ def L1(ctx, rule="L1"):
         ctx.unverifiable(rule, "floor", "-", "expected 4 for_each_concurrent sites, found %d" % len(sinks))
 
 
+def L3(ctx, rule="L3"):
+    """`limit` influences nothing but for_each_concurrent's limit argument: no
+    channel capacity, lock or loop bound derives from it (otherwise a small
+    limit can block completion)."""
+    m, fb, fl = ctx.model, ctx.fb, ctx.model.flow
+    n = 0
+    for e in m.entries:
+        li = entry_param_index(e, lambda s: "Into<" in s and "Option<usize>" in s)
+        if li is None:
+            continue
+        n += 1
+        bad = []
+        for b in m.reach_bodies(e["id"]):
+            for bb, t in b.calls():
+                p = callee_path(t) or ""
+                if p == FOR_EACH_CONCURRENT or p in fb.bodies or (t.get("callee") or {}).get("local"):
+                    continue
+                if p in ("std::convert::Into::into", "std::convert::From::from", "std::future::IntoFuture::into_future", "std::mem::drop"):
+                    continue
+                for a in t["args"]:
+                    if a["k"] == "const":
+                        continue
+                    ty = a["pl"]["ty"]
+                    if not ("usize" in ty or "Into<" in ty):
+                        continue
+                    srcs = fl.sources_operand(b, a, (), "taint")
+                    if any(x.kind == "param" and x[1] == e["id"] and x[2] == li for x in srcs):
+                        bad.append("%s at %s" % (p, b.loc(bb)))
+        ctx.check(not bad, rule, "limit-only-limits|%s" % e["name"], entry_where(e),
+                  "`limit` reaches no call other than for_each_concurrent's limit argument",
+                  "`limit` also determines %s: a small limit can block completion" % bad[:3])
+    if n < 12:
+        ctx.unverifiable(rule, "floor", "-", "expected 12 entry points with a limit, found %d" % n)
+
+
+def W4(ctx, rule="W4"):
+    """C06: the caller's `limit` reaches for_each_concurrent (so `None` gates nothing): the
+    argument must depend on the public parameter (a constant replacing it would serialise runs)."""
+    m, fb, fl = ctx.model, ctx.fb, ctx.model.flow
+    sinks = []
+    for b in fb.prod_bodies():
+        for bb, t in b.calls():
+            if callee_path(t) == FOR_EACH_CONCURRENT:
+                sinks.append((b, bb, t))
+    n = 0
+    for e in m.entries:
+        li = entry_param_index(e, lambda s: "Into<" in s and "Option<usize>" in s)
+        if li is None:
+            continue
+        n += 1
+        reach = m.reach(e["id"])
+        ok = False
+        for (b, bb, t) in sinks:
+            if b.id not in reach:
+                continue
+            srcs = fl.sources_operand(b, t["args"][1], (), "taint")
+            if any(x.kind == "param" and x[1] == e["id"] and x[2] == li for x in srcs):
+                ok = True
+        ctx.check(ok, rule, "limit-reaches|%s" % e["name"], entry_where(e),
+                  "the caller's `limit` determines for_each_concurrent's limit argument",
+                  "the caller's `limit` does not reach for_each_concurrent: the concurrency is fixed by the library")
+    if n < 12:
+        ctx.unverifiable(rule, "floor", "-", "expected 12 entry points with a limit, found %d" % n)
+
+
 def L2(ctx, rule="L2"):
     """fold / try_fold paths: sequential combinators + state returned only after the user future's Ready arm"""
     m, fb, fl = ctx.model, ctx.fb, ctx.model.flow
@@ -452,6 +517,18 @@ def I_rules(ctx, rule="I"):
         ctx.unverifiable(rule + "1", "floor", "-", "expected >= 20 entry points wired to the interruptibility options, found %d" % n)
 
 
+def I2_rule(ctx, rule="I2"):
+    """stand-alone entry for I2 (used by C09: an id that is run must be recorded)"""
+    if not ctx.model.interruptible:
+        return
+    tf = track_fn(ctx)
+    if tf is None:
+        ctx.unverifiable(rule, "track-fn", "-", "ready-stream tracking function not found")
+        return
+    inc = [i for i, x in enumerate(tf["inputs"]) if x["s"] == "bool"]
+    I2(ctx, rule, ctx.fb.bodies[tf["id"]], inc[0] + 1 if inc else None)
+
+
 def I2(ctx, rule, tb, inc_idx):
     m, fb, fl = ctx.model, ctx.fb, ctx.model.flow
     where = m.where(tb)
@@ -683,6 +760,69 @@ def O_rules(ctx, rule="O"):
                       "the state is derived from %s" % [fmt_src(s) for s in srcs][:4])
         if n3 < 8:
             ctx.unverifiable(rule + "3", "floor", "-", "expected 8 state-mapping call sites, found %d" % n3)
+    O4(ctx, rule + "4")
+
+
+def O3b(ctx, rule="O3b"):
+    """the countdown of remaining functions is decremented for every item that
+    was handed out, whatever the user future returned (else the final state is
+    Interrupted although everything was processed)"""
+    m, fb, fl = ctx.model, ctx.fb, ctx.model.flow
+    n = 0
+    seen = set()
+    for e in m.entries:
+        fam = m.family(e)
+        if fam == "stream":
+            continue
+        for b in m.per_item_bodies(e["id"]):
+            if b.id in seen or b.kind != "coroutine":
+                continue
+            uas = user_awaits(ctx, b)
+            if not uas:
+                continue
+            seen.add(b.id)
+            n += 1
+            # decrement sites: `x -= 1` on a node_count-derived value, or a call to a crate-local helper doing it
+            dec_blocks = []
+            for bb, si, s_ in b.stmts():
+                if s_["k"] == "assign" and s_["rv"]["k"] in ("use",):
+                    v = expr_rvalue(b, s_["rv"], 0, (bb, si))
+                    if v.kind == "binop" and v[1] == "Sub" and is_const(v[3], 1):
+                        srcs = sources_of_expr(ctx, b, v[2], mode="taint")
+                        if any(x.kind == "alloc" and x[4] in NODE_COUNT_FNS for x in srcs):
+                            dec_blocks.append(bb)
+            for bb, t in b.calls():
+                p = callee_path(t)
+                if p in fb.bodies:
+                    for hb in m.reach_bodies(p):
+                        for ds in get_defs(hb).through.values():
+                            for kind_, bb_, si_, st_ in ds:
+                                v = expr_rvalue(hb, st_["rv"], 0, (bb_, si_))
+                                if v.kind == "binop" and v[1] == "Sub" and is_const(v[3], 1):
+                                    ps = fl.sources_local(hb, st_["pl"]["l"], (), "taint")
+                                    if any(x.kind == "alloc" and x[4] in NODE_COUNT_FNS for x in ps):
+                                        dec_blocks.append(bb)
+            a = uas[0]
+            exits = [x for x in b.exits()]
+            # try_fold: the `?` exit discards the outcome
+            if fam == "try_fold":
+                frs = [bb for bb, t in b.calls() if callee_path(t) == "std::ops::FromResidual::from_residual"]
+                avoid = set()
+                for fr in frs:
+                    avoid |= b.reachable(fr)
+                paths_ok = bool(dec_blocks) and not (b.reachable(a.ready_bb, avoid=set(dec_blocks) | set(frs)) & set(exits))
+            else:
+                paths_ok = bool(dec_blocks) and b.all_paths_pass(a.ready_bb, dec_blocks, exits)
+            ctx.check(paths_ok, rule, "countdown-every-item|%s" % short(b.id), m.where(b, a.into_bb),
+                      "after the user future completes, every path to the end of the per-item body decrements the countdown of remaining functions",
+                      "a path from the completion of the user future to the end of the per-item body skips the countdown decrement (decrement blocks %s): the outcome state becomes Interrupted although the function was processed" % dec_blocks)
+    if n < 8:
+        ctx.unverifiable(rule, "floor", "-", "expected 8 per-item bodies, found %d" % n)
+
+
+def O4(ctx, rule="O4"):
+    """the four control wrappers map the internal result to ControlFlow"""
+    m, fb, fl = ctx.model, ctx.fb, ctx.model.flow
     # O4: control wrappers
     n4 = 0
     st_adt = fb.adts.get("stream_outcome::StreamOutcomeState")
@@ -694,7 +834,7 @@ def O_rules(ctx, rule="O"):
         b = fb.bodies.get(e["id"] + "::{closure#0}")
         where = entry_where(e)
         if b is None:
-            ctx.unverifiable(rule + "4", "wrapper-body|%s" % e["name"], where, "wrapper coroutine not found")
+            ctx.unverifiable(rule, "wrapper-body|%s" % e["name"], where, "wrapper coroutine not found")
             continue
         conts = []
         breaks = []
@@ -728,11 +868,11 @@ def O_rules(ctx, rule="O"):
                 if e_.kind == "agg" and e_[1] == "tuple" and len(e_[4]) == 2 and \
                         strip_refs(e_[4][1]).kind == "call" and strip_refs(e_[4][1])[1].endswith("Vec::<T>::new"):
                     kinds.add("not-finished")
-        ctx.check(okc and okb and kinds == {"err", "not-finished"}, rule + "4", "control-map|%s" % e["name"], where,
+        ctx.check(okc and okb and kinds == {"err", "not-finished"}, rule, "control-map|%s" % e["name"], where,
                   "Ok + Finished -> Continue(outcome); Ok + other state -> Break((outcome, [])); Err(x) -> Break(x)",
                   "control mapping differs: Continue sites %s, Break kinds %s" % ([c[0] for c in conts], sorted(kinds)))
     if n4 < 4:
-        ctx.unverifiable(rule + "4", "floor", "-", "expected 4 control wrappers, found %d" % n4)
+        ctx.unverifiable(rule, "floor", "-", "expected 4 control wrappers, found %d" % n4)
 
 
 # ---------------------------------------------------------------------------
